@@ -110,6 +110,20 @@ def main():
                 old = json.load(open(rp))
             except Exception:
                 old = {}
+        if a.demo or a.pkgtests:
+            conf = {k: res[k] for k in ("demo_without_patch", "demo_with_patch", "existing_tests", "builds", "at") if k in res}
+            rc_, head = sh("git -C /repo rev-parse --short %s" % a.ref)
+            conf["tree"] = "/repo " + head.strip()
+            with open(os.path.join(d, "confirm.json"), "w") as f:
+                json.dump(conf, f, indent=1)
+                f.write("\n")
+        prev = old.get(a.tier, {})
+        for k in ("demo_without_patch", "demo_with_patch", "existing_tests", "builds"):
+            if k not in res and k in prev:
+                res[k] = prev[k]
+        merged = dict(prev.get("checks", {}))
+        merged.update(res.get("checks", {}))
+        res["checks"] = merged
         old[a.tier] = res
         with open(rp, "w") as f:
             json.dump(old, f, indent=1)
